@@ -428,6 +428,47 @@ func honourRelaxPrerelease(col *ev.Collector, prefix string, s *universe.Scenari
 	}
 }
 
+// Class maven_dep_and_management_range (C12): a package listed in both sections with the same
+// requirement where that requirement is a range: the single reported update is only written
+// to the <dependencies> entry.
+const clsDepMgmtRange = "maven_dep_and_management_range"
+
+func depMgmtRange(m universe.Manifest) bool {
+	for _, d := range m.Deps {
+		for _, g := range m.Management {
+			if d.Name == g.Name && d.Req == g.Req && universe.IsMavenRange(g.Req) {
+				return true
+			}
+		}
+	}
+	return false
+}
+
+// honourDepMgmtRange suppresses the class by dropping the dependencyManagement entry.
+func honourDepMgmtRange(col *ev.Collector, prefix string, m *universe.Manifest) {
+	if col == nil || m.System != universe.Maven || !depMgmtRange(*m) {
+		return
+	}
+	cls := prefix + "." + clsDepMgmtRange
+	if !col.IsKnown(cls) {
+		return
+	}
+	col.Excluded(cls)
+	var keep []universe.Requirement
+	for _, g := range m.Management {
+		drop := false
+		for _, d := range m.Deps {
+			if d.Name == g.Name && d.Req == g.Req && universe.IsMavenRange(g.Req) {
+				drop = true
+			}
+		}
+		if !drop {
+			keep = append(keep, g)
+		}
+	}
+	m.Management = keep
+}
+
 // honourDepMgmtClass applies the known-finding exclusion of the class for a property.
 func honourDepMgmtClass(col *ev.Collector, prefix string, m *universe.Manifest) {
 	if col == nil || m.System != universe.Maven || !depMgmtDiffer(*m) {
